@@ -111,7 +111,8 @@ class HistActor(object):
     points; they raise Violation."""
 
     def __init__(self, session, after_commit=None, after_abort=None,
-                 on_op=None, writer_factory=None):
+                 on_op=None, writer_factory=None, before_commit=None,
+                 before_abort=None, after_writer_open=None):
         self.s = session
         self.ix = None
         self.w = None
@@ -120,6 +121,9 @@ class HistActor(object):
         self.after_abort = after_abort
         self.on_op = on_op
         self.writer_factory = writer_factory
+        self.before_commit = before_commit
+        self.before_abort = before_abort
+        self.after_writer_open = after_writer_open
         self.failed_in_body = None
         self.commits = 0
         self.last_commit_kind = None
@@ -188,6 +192,8 @@ class HistActor(object):
                 raise Violation("writer_open_raised", "%s: %s" % (type(e).__name__, e),
                                 sig="writer_open_raised:" + exc_sig(e))
             self.mw = s.model.writer()
+            if self.after_writer_open:
+                self.after_writer_open(self)
             return
         if kind == "restart":
             if self.w is not None:
@@ -323,6 +329,8 @@ class HistActor(object):
                 kw["mergetype"] = custom_policy(arg.get("mask", 1))
             self.in_commit = True
             s.os.fail_plan = None
+            if self.before_commit:
+                self.before_commit(self, m)
             try:
                 w.commit(**kw)
             except (SimAbort, SimKilled, HarnessError, Violation):
@@ -342,6 +350,8 @@ class HistActor(object):
                 self.after_commit(self)
         elif kind in ("cancel", "raise", "raise_if_not_failed"):
             s.os.fail_plan = None
+            if self.before_abort:
+                self.before_abort(self, kind)
             try:
                 if kind == "cancel":
                     w.cancel()
